@@ -23,7 +23,7 @@ SPEC = {
              'complete grid of the bucket function. Non-trivial = list with >=2 distinct buckets hit and a merchant or month '
              'shared by >=2 transactions; distinct by digest of the list'),
     'exhaustive': {'quick': False, 'thorough': False},
-    'required_counters': ['analyze_calls', 'bucket_model_checks', 'permutation_checks', 'partition_checks', 'grid_cells', 'cli_partition_checks'],
+    'required_counters': ['analyze_calls', 'bucket_model_checks', 'permutation_checks', 'partition_checks', 'grid_cells', 'cli_partition_checks', 'repeated_analysis_checks'],
     'assumptions': ['amounts are finite floats (non-finite amounts are kept out by the parser, property C05)',
                     'order independence is asserted up to float rounding: tolerance 1e-9*(1+sum|amount|)'],
 }
@@ -84,6 +84,9 @@ def gen_list(rnd, n):
              'raw_description': f'RAW {i % 7}', 'source': rnd.choice(['Amex', 'Chase'])}
         if rnd.random() < .1:
             del t['tags']
+        elif rnd.random() < .4:
+            # as the statement readers build it: the transaction's tag list IS the list inside its match_info (one object, two names)
+            t['match_info'] = {'pattern': 'p', 'source': 'user', 'tags': t['tags'], 'tag_sources': {}}
         out.append(t)
     return out
 
@@ -161,6 +164,19 @@ def judge(rec, lst, rnd, perms=3, parts=2):
     stats = analyze_transactions(copy.deepcopy(lst))
     rec.count('analyze_calls')
     b, gm, gc, gmo, cm, cc = model(lst)
+    # 0. analysing is a pure reading of the list: the same OBJECTS analysed a second time (another order) give the same figures, and are unchanged
+    live = copy.deepcopy(lst)
+    snap = repr([(t.get('tags'), t['amount']) for t in live])
+    f1 = figures(analyze_transactions(live))
+    live_rev = list(reversed(live))
+    f2 = figures(analyze_transactions(live_rev))
+    rec.count('repeated_analysis_checks')
+    if repr([(t.get('tags'), t['amount']) for t in live]) != snap:
+        rec.violation('analysis-mutates-transactions', 'analyze_transactions changed the tags / amounts of the transactions it was given', case)
+    else:
+        bad0 = [kk for kk in set(f1) | set(f2) if kk not in f1 or kk not in f2 or not close(f1[kk], f2[kk], tol * 4)]
+        if bad0:
+            rec.violation('repeated-analysis-differs', f'figures {sorted(bad0)[:5]} differ between two analyses of the same transaction objects', case)
     # 1. buckets vs model
     rec.count('bucket_model_checks')
     for name, sk in STATKEY.items():
